@@ -209,7 +209,8 @@ class Program:
 
     # ---- may-U ---------------------------------------------------------------------------
     def _compute_mayU(self):
-        direct = defaultdict(set)
+        direct = defaultdict(set)          # sites on normal blocks
+        direct_cleanup = defaultdict(set)  # sites on cleanup blocks: only run once an unwinding has started
         edges = defaultdict(set)
         for f in self.fns.values():
             for bb in range(len(f.blocks)):
@@ -217,8 +218,13 @@ class Program:
                 if not ci:
                     continue
                 if ci.get("ukind") in U_KINDS:
-                    direct[f.id].add(ci["ukind"])
+                    if f.blocks[bb]["cleanup"]:
+                        direct_cleanup[f.id].add(ci["ukind"])
+                    else:
+                        direct[f.id].add(ci["ukind"])
                     self.usites.append((f, bb, ci["ukind"], ci))
+                if f.blocks[bb]["cleanup"]:
+                    continue
                 for tf in ci.get("targets", []):
                     edges[f.id].add(tf.id)
                 for cl in ci.get("closures", []):
@@ -227,7 +233,6 @@ class Program:
                     for d in ci.get("dtors", []):
                         if d in self.fns:
                             edges[f.id].add(d)
-            # closures created in f are *not* automatically called by f; they are linked where passed
         mayU = {fid: set(k) for fid, k in direct.items()}
         changed = True
         while changed:
@@ -238,6 +243,12 @@ class Program:
                 for o in outs:
                     cur |= mayU.get(o, set())
                 if len(cur) != before:
+                    changed = True
+            # a cleanup-block callback site runs only if user code can start an unwinding inside this function
+            for fid, ks in direct_cleanup.items():
+                cur = mayU.setdefault(fid, set())
+                if cur and not ks <= cur:
+                    cur |= ks
                     changed = True
         self.mayU = mayU
         self.call_edges = edges
@@ -1272,6 +1283,9 @@ def normalise_literal(e, val, term):
     """Turn (switch expr, edge value) into canonical literals [(atom, truth)].
     atom forms: ('cmp', op, a, b) with canonical operand order; ('bool', expr); ('discr', expr, value)."""
     out = []
+    if isinstance(e, tuple) and e and e[0] == "discr" and [v for v, _ in term["targets"]] == [0]:
+        # two-way switch on a discriminant: keep it a discriminant literal, not a boolean
+        return _lit_of(e, ("not", 0) if val == "otherwise" else ("is", 0))
     if val == "otherwise":
         vals = [v for v, _ in term["targets"]]
         if vals == [0]:
